@@ -418,20 +418,17 @@ class ReachingDefs:
     def reaching(self, node: Node, path: str) -> Set[int]:
         """Def node ids of `path` that may reach the *start* of node (entry id = value at function entry).
         A read of `self.a.b` is also affected by writes to `self.a`."""
-        res = set()
         inn = self.IN[node.id]
         cands = [path]
         parts = path.split(".")
-        for i in range(1, len(parts)):
+        for i in range(len(parts) - 1, 0, -1):
             cands.append(".".join(parts[:i]))
-        hit = False
+        # most specific binding first: a definition of the full path is not affected by older definitions of a prefix
+        # (a later write to the prefix kills the longer path, see _kills)
         for c in cands:
             if c in inn:
-                res |= inn[c]
-                hit = True
-        if not hit:
-            res.add(self.cfg.entry.id)
-        return res
+                return set(inn[c])
+        return {self.cfg.entry.id}
 
     def upward_exposed(self, path: str) -> List[Node]:
         """Nodes that read `path` while the function-entry value may still reach them."""
